@@ -196,6 +196,22 @@ def _tailify(stmts, result):
                 return None
             out.append(ast.If(test=st.test, body=body_t, orelse=rest_t or [ast.Pass()]))
             return out
+        if isinstance(st, ast.Try) and _has_return([st]) and i == len(stmts) - 1 and not st.orelse and not st.finalbody:
+            # the last statement: returns inside the protected block (and the handlers) become assignments, evaluated
+            # under the same protection; control then leaves the try and the function body ends
+            body_t = _tailify(st.body, result)
+            if body_t is None:
+                return None
+            handlers = []
+            for h in st.handlers:
+                hb = h.body
+                if _has_return(hb):
+                    hb = _tailify(hb, result)
+                    if hb is None:
+                        return None
+                handlers.append(ast.ExceptHandler(type=h.type, name=h.name, body=hb))
+            out.append(ast.Try(body=body_t, handlers=handlers, orelse=[], finalbody=[]))
+            return out
         if _has_return([st]):
             return None
         out.append(st)
@@ -483,7 +499,29 @@ class Normalizer:
                             for x in ast.walk(b):
                                 ast.copy_location(x, s) if not hasattr(x, "lineno") else None
                         tail = None
-                        if target == "return":
+                        # ``a, b = helper(...)`` where the helper returns its own locals ``(x, y)``: the locals take the
+                        # caller's names and the hand-over assignment disappears (the caller's names are not mentioned
+                        # by the arguments, and nothing of the caller runs between the helper's statements)
+                        coalesced = False
+                        if target not in (None, "return") and ret is not None:
+                            t_elts = target.elts if isinstance(target, ast.Tuple) else [target]
+                            r_elts = ret.elts if isinstance(ret, ast.Tuple) and isinstance(target, ast.Tuple) else [ret]
+                            helper_locals = {ren.get(l, l) for l in locs}
+                            arg_names = {x.id for v_ in mapping.values() for x in ast.walk(v_) if isinstance(x, ast.Name)}
+                            if len(t_elts) == len(r_elts) and all(isinstance(x, ast.Name) for x in t_elts + r_elts):
+                                tn, rn = [x.id for x in t_elts], [x.id for x in r_elts]
+                                used_in_new = {x.id for b in new for x in ast.walk(b) if isinstance(x, ast.Name)}
+                                if len(set(tn)) == len(tn) and len(set(rn)) == len(rn) and set(rn) <= helper_locals and not (set(tn) & arg_names) \
+                                        and not ((set(tn) - set(rn)) & used_in_new):
+                                    m2 = dict(zip(rn, tn))
+                                    for b in new:
+                                        for x in ast.walk(b):
+                                            if isinstance(x, ast.Name) and x.id in m2:
+                                                x.id = m2[x.id]
+                                    coalesced = True
+                        if coalesced:
+                            pass
+                        elif target == "return":
                             tail = ast.Return(value=ret if ret is not None else ast.Constant(None))
                         elif target is not None:
                             tail = ast.Assign(targets=[target], value=ret if ret is not None else ast.Constant(None))
@@ -562,6 +600,25 @@ class Normalizer:
                     continue
                 rhs = st.value
                 if not self._pure(rhs) or isinstance(rhs, (ast.List, ast.Dict, ast.Set)):
+                    continue
+                # a value that builds a fresh mutable object is an object, not an alias of an expression
+                if any(isinstance(x, (ast.List, ast.Dict, ast.Set, ast.ListComp, ast.DictComp, ast.SetComp, ast.GeneratorExp)) for x in ast.walk(rhs)) or any(
+                        isinstance(x, ast.Call) and isinstance(x.func, ast.Name) and x.func.id in ("list", "dict", "set", "bytearray", "defaultdict", "sorted", "reversed", "enumerate", "zip", "iter")
+                        for x in ast.walk(rhs)):
+                    continue
+                # ... and a name that is stored through (x[i] = v, x.f = v, x += v) or has methods called on it may be one
+                mutated = False
+                for x in ast.walk(func):
+                    if isinstance(x, (ast.Subscript, ast.Attribute)) and isinstance(x.ctx, (ast.Store, ast.Del)) and isinstance(x.value, ast.Name) and x.value.id == name:
+                        mutated = True
+                    if isinstance(x, ast.AugAssign) and isinstance(x.target, ast.Name) and x.target.id == name:
+                        mutated = True
+                    if isinstance(x, ast.Call) and isinstance(x.func, ast.Attribute) and isinstance(x.func.value, ast.Name) and x.func.value.id == name \
+                            and x.func.attr in ("append", "extend", "insert", "pop", "remove", "clear", "sort", "reverse", "update", "add", "discard", "setdefault", "popitem", "CopyFrom", "MergeFrom"):
+                        mutated = True
+                # a reference (attribute / subscript chain, or a lookup call) may be stored through: both spellings
+                # reach the same object; anything computed (a + b, a conditional, a literal) may be a fresh object
+                if mutated and not isinstance(rhs, (ast.Name, ast.Attribute, ast.Subscript, ast.Call)):
                     continue
                 # the statement must sit in a plain block
                 holder = par.get(id(st))
@@ -725,6 +782,46 @@ class Normalizer:
 
         func.body = block(func.body)
 
+    @staticmethod
+    def _renumber(func):
+        """After statements were spliced in from elsewhere (helpers, unrolled loops) line numbers no longer follow the
+        order of execution.  The statements of the function get consecutive line numbers in source order (sub-expressions
+        take their statement's); the position in the file is kept in ``_orig_lineno`` for reports."""
+        counter = [func.lineno]
+
+        def stmt(st):
+            counter[0] += 1
+            ln = counter[0]
+            for fld, val in ast.iter_fields(st):
+                if fld in ("body", "orelse", "finalbody", "handlers") and isinstance(val, list):
+                    continue
+                for sub in (val if isinstance(val, list) else [val]):
+                    if isinstance(sub, ast.AST):
+                        for x in ast.walk(sub):
+                            if hasattr(x, "lineno"):
+                                if not hasattr(x, "_orig_lineno"):
+                                    x._orig_lineno = x.lineno
+                                x.lineno = ln
+                                x.end_lineno = ln
+            if not hasattr(st, "_orig_lineno"):
+                st._orig_lineno = getattr(st, "lineno", ln)
+            st.lineno = ln
+            for fld in ("body", "orelse", "finalbody"):
+                for ch in getattr(st, fld, []) or []:
+                    if isinstance(ch, ast.stmt):
+                        stmt(ch)
+            for h in getattr(st, "handlers", []) or []:
+                counter[0] += 1
+                h._orig_lineno = getattr(h, "lineno", counter[0])
+                h.lineno = counter[0]
+                for ch in h.body:
+                    stmt(ch)
+            st.end_lineno = counter[0]
+
+        for b in func.body:
+            stmt(b)
+        func.end_lineno = counter[0]
+
     # -------------------------------------------------------------- driver
     def run(self):
         tree = self.tree
@@ -740,6 +837,7 @@ class Normalizer:
                     cls_name = pp.name
                     break
                 pp = self.par.get(id(pp))
+            n_helpers_before = len(self.report["helpers"])
             self._fold_constants(n)
             if n.name != "<lambda>" and _qual(n, self.par) in self.pinned_funcs:
                 self._unroll_table_loops(n, set(self.pinned_funcs.get(_qual(n, self.par), [])))
@@ -751,6 +849,8 @@ class Normalizer:
             pinned_locals = set(self.pinned_funcs.get(q, [])) if q in self.pinned_funcs else set()
             if q in self.pinned_funcs:
                 self._propagate_aliases(n, pinned_locals)
+            if len(self.report["helpers"]) > n_helpers_before:
+                self._renumber(n)
         ast.fix_missing_locations(tree)
         return tree
 
